@@ -607,14 +607,22 @@ def target (policy : Nat) (path : Bytes) : Option Bytes :=
 def locationAsIs (r : Req) (newPath : Bytes) : Bytes :=
   urlString r.pre r.hostSet newPath r.rawQuery r.forceQuery
 
-/-- the `Location` value after the `fix:` commit for K17 (`redirectLocation`): a URL without scheme
+/-- the `Location` value after the `fix:` commit for K17 and before the one for K17d: a URL without scheme
     and host whose string form starts with `//` (a path beginning with two slashes — a network-path
     reference for every client) gets its second slash percent-encoded:
     `if u.Scheme == "" && u.Host == "" && u.User == nil && strings.HasPrefix(loc, "//") { loc = "/%2F" + loc[2:] }` -/
-def location (r : Req) (newPath : Bytes) : Bytes :=
+def locationK17 (r : Req) (newPath : Bytes) : Bytes :=
   if r.pre = [] ∧ r.hostSet = false ∧ ['/', '/'].isPrefixOf (locationAsIs r newPath) = true
   then ['/', '%', '2', 'F'] ++ (locationAsIs r newPath).drop 2
   else locationAsIs r newPath
+
+/-- `redirectLocation` as it is now (K17d): a URL without a host is answered with a path reference whatever else it
+    carries — `if u.Host != "" || u.User != nil { return u.String() }`, otherwise the string form of
+    `url.URL{Path, RawPath, RawQuery, ForceQuery}` with the `//` guard. In terms of the request record: without a host
+    nothing is printed before the path. -/
+def noHostPrefix (r : Req) : Req := { r with pre := if r.hostSet then r.pre else [] }
+
+def location (r : Req) (newPath : Bytes) : Bytes := locationK17 (noHostPrefix r) newPath
 
 def serveWith (loc : Req → Bytes → Bytes) (r : Req) : Obs :=
   match target r.policy r.path with
@@ -624,6 +632,8 @@ def serveWith (loc : Req → Bytes → Bytes) (r : Req) : Obs :=
 /-- `trailingslash.New(WithPolicy(p))` / `trailingslash.Wrap(h, WithPolicy(p))` in front of a handler -/
 def serve (r : Req) : Obs := serveWith location r
 def serveAsIs (r : Req) : Obs := serveWith locationAsIs r
+/-- between the repairs of K17 and K17d (kept for the K17d witness) -/
+def serveK17 (r : Req) : Obs := serveWith locationK17 r
 
 end Slash
 
